@@ -71,6 +71,8 @@ type Interp struct {
 	qcacheHits   int
 	focus        []*Term
 	errWhere     string
+	pinned       []uint64
+	observed     []string
 	deferMemo    map[*ssa.Function]bool
 	rtErrT       types.Type
 }
@@ -83,6 +85,7 @@ type Frame struct {
 	panic   *goPanic
 	owner   *Frame // frame whose deferred call this is (for recover)
 	prev    *ssa.BasicBlock
+	tolerant bool
 }
 
 type deferRec struct {
@@ -110,19 +113,13 @@ func NewInterp(prog *ssa.Program, cfg *Config) *Interp {
 // ---------------------------------------------------------------- globals / init
 
 func (in *Interp) globalCell(g *ssa.Global) *Cell {
-	if c, ok := in.globals[g]; ok {
-		if why, bad := in.poisoned[g]; bad && !in.inInit {
-			panic(unsupported("global " + g.String() + " could not be initialised: " + why))
-		}
+	if c, ok := in.globals[g]; ok && (in.inited[g.Pkg] || in.initing[g.Pkg]) {
 		return c
 	}
 	in.ensureInit(g.Pkg)
 	c, ok := in.globals[g]
 	if !ok {
 		c = in.allocGlobal(g)
-	}
-	if why, bad := in.poisoned[g]; bad && !in.inInit {
-		panic(unsupported("global " + g.String() + " could not be initialised: " + why))
 	}
 	return c
 }
@@ -161,13 +158,18 @@ func (in *Interp) ensureInit(pkg *ssa.Package) {
 		func() {
 			defer func() {
 				if r := recover(); r != nil {
-					switch x := r.(type) {
-					case unsupportedErr:
-						in.initNotes = append(in.initNotes, fmt.Sprintf("init %s: %s", pkg.Pkg.Path(), x.what))
-					case *goPanic:
-						in.initNotes = append(in.initNotes, fmt.Sprintf("init %s: panic %s", pkg.Pkg.Path(), in.panicText(x)))
-					default:
+					if _, ok := r.(pathEnd); ok {
 						panic(r)
+					}
+					why := fmt.Sprintf("package initialiser of %s aborted: %v", pkg.Pkg.Path(), r)
+					if gp, ok := r.(*goPanic); ok {
+						why = fmt.Sprintf("package initialiser of %s panicked: %s", pkg.Pkg.Path(), in.panicText(gp))
+					}
+					in.initNotes = append(in.initNotes, why)
+					for _, m := range pkg.Members {
+						if g, ok := m.(*ssa.Global); ok {
+							in.poisonCell(in.rawGlobal(g), why)
+						}
 					}
 				}
 			}()
@@ -182,7 +184,7 @@ func (in *Interp) ensureInit(pkg *ssa.Package) {
 // runInit interprets a package init function tolerantly: an instruction that
 // fails as unsupported poisons the globals it would have stored to.
 func (in *Interp) runInit(fn *ssa.Function) {
-	fr := &Frame{fn: fn, env: map[ssa.Value]Value{}}
+	fr := &Frame{fn: fn, env: map[ssa.Value]Value{}, tolerant: true}
 	in.call0(fr)
 }
 
@@ -444,6 +446,14 @@ func (in *Interp) runBlocks(fr *Frame, start *ssa.BasicBlock) Value {
 				panic(budgetErr{"instruction budget"})
 			}
 			in.curInstr = instr
+			if fr.tolerant {
+				switch instr.(type) {
+				case *ssa.If, *ssa.Jump, *ssa.Return:
+				default:
+					in.tolerantStep(fr, instr)
+					continue
+				}
+			}
 			switch x := instr.(type) {
 			case *ssa.If:
 				c := in.get(fr, x.Cond).(*Term)
@@ -466,36 +476,8 @@ func (in *Interp) runBlocks(fr *Frame, start *ssa.BasicBlock) Value {
 					tv[i] = in.get(fr, r)
 				}
 				return tv
-			case *ssa.Panic:
-				v := in.get(fr, x.X)
-				panic(&goPanic{val: v, site: in.where()})
-			case *ssa.RunDefers:
-				in.runDefers(fr)
-			case *ssa.Defer:
-				d := deferRec{}
-				d.fn, d.args, d.invoke = in.prepareCall(fr, &x.Call)
-				fr.defers = append(fr.defers, d)
-			case *ssa.Go:
-				panic(unsupported("go statement"))
-			case *ssa.Send:
-				ch := in.get(fr, x.Chan).(*ChanObj)
-				if ch == nil || len(ch.buf) >= ch.cap {
-					panic(unsupported("blocking channel send"))
-				}
-				ch.buf = append(ch.buf, in.get(fr, x.X))
-			case *ssa.Store:
-				p := in.concPtr(in.get(fr, x.Addr).(PtrV))
-				if p.c == nil {
-					panic(in.rtPanic("invalid memory address or nil pointer dereference"))
-				}
-				in.store(p.c, in.get(fr, x.Val))
-			case *ssa.MapUpdate:
-				in.mapUpdate(in.get(fr, x.Map), in.get(fr, x.Key), in.get(fr, x.Value))
-			case *ssa.DebugRef:
-			case ssa.Value:
-				fr.env[x] = in.evalValue(fr, x)
 			default:
-				panic(unsupported(fmt.Sprintf("instruction %T", instr)))
+				in.execSimple(fr, instr)
 			}
 		}
 		if next == nil {
@@ -503,6 +485,221 @@ func (in *Interp) runBlocks(fr *Frame, start *ssa.BasicBlock) Value {
 		}
 		fr.prev = b
 		b = next
+	}
+}
+
+// execSimple executes a non-control-flow instruction.
+func (in *Interp) execSimple(fr *Frame, instr ssa.Instruction) {
+	switch x := instr.(type) {
+			case *ssa.Panic:
+		v := in.get(fr, x.X)
+		panic(&goPanic{val: v, site: in.where()})
+	case *ssa.RunDefers:
+		in.runDefers(fr)
+	case *ssa.Defer:
+		d := deferRec{}
+		d.fn, d.args, d.invoke = in.prepareCall(fr, &x.Call)
+		fr.defers = append(fr.defers, d)
+	case *ssa.Go:
+		panic(unsupported("go statement"))
+	case *ssa.Send:
+		ch := in.get(fr, x.Chan).(*ChanObj)
+		if ch == nil || len(ch.buf) >= ch.cap {
+			panic(unsupported("blocking channel send"))
+		}
+		ch.buf = append(ch.buf, in.get(fr, x.X))
+	case *ssa.Store:
+		p := in.concPtr(in.get(fr, x.Addr).(PtrV))
+		if p.c == nil {
+			panic(in.rtPanic("invalid memory address or nil pointer dereference"))
+		}
+		in.store(p.c, in.get(fr, x.Val))
+	case *ssa.MapUpdate:
+		in.mapUpdate(in.get(fr, x.Map), in.get(fr, x.Key), in.get(fr, x.Value))
+	case *ssa.DebugRef:
+	case ssa.Value:
+		fr.env[x] = in.evalValue(fr, x)
+	default:
+		panic(unsupported(fmt.Sprintf("instruction %T", instr)))
+	}
+}
+
+type poisonV struct{ why string }
+
+// tolerantStep runs one instruction of a package initialiser; if it cannot be
+// executed its results are poisoned (reads of poisoned memory are reported as
+// unsupported, never as zero values).
+func (in *Interp) tolerantStep(fr *Frame, instr ssa.Instruction) {
+	for _, op := range instr.Operands(nil) {
+		if *op == nil {
+			continue
+		}
+		if pv, ok := fr.env[*op].(poisonV); ok {
+			in.poisonInstr(fr, instr, pv.why)
+			return
+		}
+	}
+	defer func() {
+		if r := recover(); r != nil {
+			why := ""
+			switch x := r.(type) {
+			case unsupportedErr:
+				why = x.what
+			case *goPanic:
+				why = "panic: " + in.panicText(x)
+			case budgetErr:
+				why = "budget: " + x.what
+			case pathEnd:
+				panic(r)
+			default:
+				why = fmt.Sprint(r)
+			}
+			in.errWhere = ""
+			in.poisonInstr(fr, instr, why)
+		}
+	}()
+	in.execSimple(fr, instr)
+}
+
+func (in *Interp) poisonInstr(fr *Frame, instr ssa.Instruction, why string) {
+	pkgPath := ""
+	if fr.fn.Pkg != nil {
+		pkgPath = fr.fn.Pkg.Pkg.Path()
+	}
+	in.initNotes = append(in.initNotes, fmt.Sprintf("init %s: %s", pkgPath, why))
+	if v, ok := instr.(ssa.Value); ok {
+		fr.env[v] = poisonV{why}
+	}
+	switch x := instr.(type) {
+	case *ssa.Store:
+		in.poisonRoot(fr, x.Addr, why)
+	case *ssa.MapUpdate:
+		in.poisonRoot(fr, x.Map, why)
+	case ssa.CallInstruction:
+		for _, a := range x.Common().Args {
+			if _, ok := a.Type().Underlying().(*types.Pointer); ok {
+				in.poisonRoot(fr, a, why)
+			}
+		}
+		if callee := x.Common().StaticCallee(); callee != nil && callee.Pkg == fr.fn.Pkg {
+			seen := map[*ssa.Function]bool{}
+			in.poisonWrittenGlobals(callee, why, seen, 0)
+		}
+	}
+}
+
+func (in *Interp) poisonWrittenGlobals(fn *ssa.Function, why string, seen map[*ssa.Function]bool, depth int) {
+	if seen[fn] || depth > 4 {
+		return
+	}
+	seen[fn] = true
+	for _, b := range fn.Blocks {
+		for _, instr := range b.Instrs {
+			var addr ssa.Value
+			switch x := instr.(type) {
+			case *ssa.Store:
+				addr = x.Addr
+			case *ssa.MapUpdate:
+				addr = x.Map
+			case ssa.CallInstruction:
+				if c := x.Common().StaticCallee(); c != nil && c.Pkg == fn.Pkg {
+					in.poisonWrittenGlobals(c, why, seen, depth+1)
+				}
+			}
+			if g := rootGlobal(addr); g != nil {
+				in.poisonCell(in.rawGlobal(g), why)
+			}
+		}
+	}
+	for _, af := range fn.AnonFuncs {
+		in.poisonWrittenGlobals(af, why, seen, depth+1)
+	}
+}
+
+func rootGlobal(v ssa.Value) *ssa.Global {
+	for i := 0; v != nil && i < 32; i++ {
+		switch x := v.(type) {
+		case *ssa.Global:
+			return x
+		case *ssa.FieldAddr:
+			v = x.X
+		case *ssa.IndexAddr:
+			v = x.X
+		case *ssa.UnOp:
+			v = x.X
+		case *ssa.Slice:
+			v = x.X
+		default:
+			return nil
+		}
+	}
+	return nil
+}
+
+func (in *Interp) rawGlobal(g *ssa.Global) *Cell {
+	if c, ok := in.globals[g]; ok {
+		return c
+	}
+	return in.allocGlobal(g)
+}
+
+func (in *Interp) poisonRoot(fr *Frame, addr ssa.Value, why string) {
+	if g := rootGlobal(addr); g != nil {
+		in.poisonCell(in.rawGlobal(g), why)
+		return
+	}
+	// root is a local value (e.g. an Alloc that is stored into a global later)
+	v := addr
+	for i := 0; i < 32; i++ {
+		switch x := v.(type) {
+		case *ssa.FieldAddr:
+			v = x.X
+			continue
+		case *ssa.IndexAddr:
+			v = x.X
+			continue
+		case *ssa.Slice:
+			v = x.X
+			continue
+		}
+		break
+	}
+	switch pv := fr.env[v].(type) {
+	case PtrV:
+		if pv.c != nil {
+			in.poisonCell(pv.c, why)
+		}
+	case *MapObj:
+		if pv != nil {
+			pv.bad = why
+		}
+	case SliceV:
+		if pv.arr != nil {
+			pv.arr.bad = why
+			for _, c := range pv.arr.cells {
+				if c != nil {
+					in.poisonCell(c, why)
+				}
+			}
+		}
+	}
+}
+
+func (in *Interp) poisonCell(c *Cell, why string) {
+	switch c.kind {
+	case 0:
+		c.bad = why
+	case 1:
+		for _, s := range c.sub {
+			in.poisonCell(s, why)
+		}
+	default:
+		c.arr.bad = why
+		for _, e := range c.arr.cells {
+			if e != nil {
+				in.poisonCell(e, why)
+			}
+		}
 	}
 }
 
@@ -515,6 +712,11 @@ func (in *Interp) evalValue(fr *Frame, instr ssa.Value) Value {
 	case *ssa.UnOp:
 		return in.unop(fr, x)
 	case *ssa.Call:
+		if fr.tolerant {
+			if callee := x.Call.StaticCallee(); callee != nil && callee.Name() == "init" && callee.Pkg != fr.fn.Pkg && callee.Signature.Recv() == nil {
+				return nil // other packages are initialised lazily on first access
+			}
+		}
 		if b, ok := x.Call.Value.(*ssa.Builtin); ok && b.Name() == "recover" {
 			if fr.owner != nil && fr.owner.panic != nil {
 				v := fr.owner.panic.val
@@ -753,6 +955,9 @@ func (in *Interp) symLoad(r *SymRef) Value {
 	var z *Term
 	for i := 0; i < r.n; i++ {
 		c := r.arr.cells[r.off+i]
+		if (c == nil && r.arr.bad != "") || (c != nil && c.bad != "") {
+			panic(unsupported("read of memory whose package initialiser could not be executed"))
+		}
 		if c == nil {
 			if z == nil {
 				z = in.zero(r.arr.et).(*Term)
@@ -965,6 +1170,9 @@ func (in *Interp) keyEq(a, b Value, kt types.Type) *Term {
 func (in *Interp) mapFind(m *MapObj, k Value) int {
 	if m == nil {
 		return -1
+	}
+	if m.bad != "" {
+		panic(unsupported("use of a map whose package initialiser could not be executed (" + m.bad + ")"))
 	}
 	for i := range m.ents {
 		eq := in.keyEq(m.ents[i].k, k, m.kt)
